@@ -514,7 +514,7 @@ pub fn random_frame(rng: &mut Rng, cfg: &GenConfig, prog: &Program, is_last: boo
         } else {
             None
         },
-        noise: if cfg.noise && rng.chance(1, 5) && !(cfg.safe && { let gd = 128u32 << group_size_shift; ch > gd && ch % gd == 1 }) {
+        noise: if cfg.noise && rng.chance(1, 5) && !(cfg.safe && { let gd = 128u32 << group_size_shift; (ch > gd && ch % gd == 1) || (fh > gd && fh % gd == 1) }) {
             let mut l = [0u32; 8];
             for v in &mut l {
                 *v = rng.below(1024) as u32;
@@ -623,4 +623,77 @@ pub fn minimal_program(width: u32, height: u32, seed: u64) -> Program {
         cw_seed: 0,
         frames: vec![f],
     }
+}
+
+/// Field extremes written by the generator itself: the places the C01 text names (width*height
+/// products, +1 on decoded varints, crop offsets, pass tables). Sections carry no sample data.
+pub fn extreme_program(rng: &mut Rng) -> Program {
+    let cfg = GenConfig { max_dim: 64, max_frames: 2, max_pixels: 64 * 64, safe: false, transforms: false, squeeze: false, ..GenConfig::small() }.swarm(rng);
+    let mut prog = random_program(rng, &cfg);
+    prog.size_form = SizeForm::Explicit;
+    let kind = rng.below(9);
+    match kind {
+        0 => {
+            let (w, h) = *rng.pick(&[(65536u32, 65536u32), (1 << 30, 1), (1, 1 << 30), (46341, 46341), (65535, 65537), (1 << 20, 1 << 20), (65536, 1)]);
+            prog.width = w;
+            prog.height = h;
+        }
+        1 => {
+            // many extra channels (default alpha form keeps the header small)
+            let n = *rng.pick(&[17usize, 64, 255, 256, 257]);
+            prog.extra = (0..n).map(|_| EcSpec { kind: EcKind::Alpha { associated: false }, bits: 8, dim_shift: 0, name: String::new(), default_form: true }).collect();
+        }
+        2 => {
+            prog.width = *rng.pick(&[1000u32, 5000, 70000]);
+            prog.height = *rng.pick(&[1000u32, 3000]);
+        }
+        _ => {}
+    }
+    let nframes = prog.frames.len();
+    for (fi, f) in prog.frames.iter_mut().enumerate() {
+        f.modular.mode = SampleMode::Empty;
+        f.modular.transforms.clear();
+        f.ec_upsampling = vec![f.upsampling; prog.extra.len()];
+        f.ec_blend = (0..prog.extra.len()).map(|_| BlendSpec { mode: BlendMode::Replace, alpha_channel: 0, clamp: false, source: 0 }).collect();
+        if f.kind == FrameKind::ReferenceOnly {
+            f.crop = None;
+        }
+        let big = prog.width.max(prog.height) > 4096;
+        if big {
+            f.group_size_shift = 3;
+        }
+        match kind {
+            3 => {
+                if f.kind != FrameKind::ReferenceOnly {
+                    let o = *rng.pick(&[1i32 << 29, -(1 << 29), (1 << 29) + 9000, -(1 << 29) - 9000, 18688, -18688]);
+                    f.crop = Some((o, *rng.pick(&[o, 0, -o]), *rng.pick(&[1u32, 255, 1 << 20, 1 << 30]), *rng.pick(&[1u32, 256, 1 << 10])));
+                    f.group_size_shift = 3;
+                }
+            }
+            4 => {
+                if f.kind != FrameKind::ReferenceOnly {
+                    let np = rng.range(2, 11) as u32;
+                    let nds = rng.range(1, 4) as usize;
+                    f.passes = PassesSpec {
+                        num_passes: np,
+                        shift: (0..np - 1).map(|_| rng.below(4) as u32).collect(),
+                        downsample: (0..nds).map(|_| *rng.pick(&[1u32, 1, 2, 4, 8])).collect(),
+                        last_pass: (0..nds).map(|_| rng.below(8.min(np as u64 + 2)) as u32).collect(),
+                    };
+                }
+            }
+            5 => {
+                f.upsampling = 8;
+                f.ec_upsampling = vec![8; prog.extra.len()];
+            }
+            6 => {
+                f.duration = if prog.animation.is_some() { *rng.pick(&[0u32, 1, u32::MAX]) } else { 0 };
+                f.save_as_reference = rng.below(4) as u32;
+                f.blend.source = rng.below(4) as u32;
+            }
+            _ => {}
+        }
+        f.is_last = fi + 1 == nframes;
+    }
+    prog
 }
